@@ -57,6 +57,12 @@ CHECKS = {
  "C10": ("other", "once-before-read dominance for the load-slide globals, anchor/name agreement (FullName of the measured object = constant looked up), provenance of returned addresses (table address + same-kind slide under err==nil), path-sensitive 'nil error ⇒ non-nil symbol', exact == on symbol names",
          "Decides that lookups return table address + correctly-initialised slide only on success and an error otherwise, and that names are matched exactly. Correctness of the slide for every symbol and link mode is a property of the linker and is not decided.",
          "Trusted: go/ssa; debug/gosym.LookupFunc is exact."),
+ "C16": ("other", "difference-constraint (DBM) proof that every read of the input slice is dominated by a sufficient length guard; exhaustive abstract execution of the decoder's 13k-entry bytecode table (targets, cycles, read-before-use typestate for PC-relative/immediate/ModR/M arguments, argument count, opcode set before match); error-before-advance rule at every consumer; (thorough) compiler prove-pass inventory of unremoved bounds checks",
+         "Decides TOTALITY only: never panics on the input reads, Len stays within 1..15 and within the input, PC-relative field lies inside the consumed bytes, consumers stop on errors. Agreement with a reference decoder on compiler-emitted code needs an oracle for x86 encodings (the toolchain's copy is a different table generation) and is NOT decided.",
+         "Trusted: go/ssa; the interpreter's control operators as mirrored in c16.go (checked against the set of ops the interpreter has a case for); encoding/binary.LittleEndian.UintN needs N/8 bytes."),
+ "C17": ("translation_validation", "sibling cross-check against the toolchain's own copy of the decoder ($GOROOT/src/cmd/vendor/golang.org/x/arch/arm64/arm64asm): row-by-row equality of the mask/value table, equality of Decode / every decodeArg case / every predicate as normalised syntax trees, computed carve-out confined to the A64 system-instruction space; SSA totality rules (length guard, no panic, no unchecked assertion); consumer rules on the arm64 configuration",
+         "Equality of code and tables with an independent reference establishes agreement on decodability, opcode and PC-relative displacement for every one of the 2^32 words outside the system-instruction carve-out by construction (no enumeration needed); totality is decided structurally. A behaviour-preserving rewrite that the syntactic normalisation cannot see would be reported as a divergence (accepted: the code is vendored and only ever re-synced).",
+         "Trusted: the reference copy shipped with the toolchain; go/parser; words inside the SYS carve-out and printing fidelity are not decided; if GOROOT's copy is missing the check fails with 'reference unavailable'."),
 }
 NA = {}
 PENDING_REASON = "check not built yet in this revision (planned per DESIGN.md section 3); not claimed until it runs"
